@@ -19,7 +19,7 @@ models whose columns are chosen on both sides of every condition.  The NumPy mod
 explicit_euler, generalized_rush_larsen, hybrid_rush_larsen) is called with states of shape (n_states, N), N = 5 columns (default point,
 random, integer-valued and sign-flipped points, each valid on its own), in three input modes: shared parameters + scalar t,
 per-column parameters (n_parameters, N) + scalar t, per-column parameters + per-column t.  One case = one (model, function, mode): the
-call must succeed, return shape (n_out, N), and column j must equal (rtol 1e-12, atol 1e-12 x (1 + magnitude)) the result of calling the same function on column j
+call must succeed, return shape (n_out, N), and column j must equal (rtol 1e-8, atol 1e-12 x (1 + magnitude)) the result of calling the same function on column j
 alone.  Non-trivial: at least two columns give different single-column results; distinct by sha1(text, function, mode, columns)."""
 
 PROBES = [
@@ -127,7 +127,7 @@ def check(case):
             if got.shape != (n_out, N):
                 add(f"wrong-shape:{grp(fn)}", f"{fn} returns shape {got.shape} for states of shape {S.shape} ({mode}); expected {(n_out, N)}", inp, [n_out, N], list(got.shape))
                 continue
-            bad = [(i, j) for i in range(n_out) for j in range(N) if not cm.vclose(got[i, j], single[i, j], 0.0, 1e-12)]
+            bad = [(i, j) for i in range(n_out) for j in range(N) if not cm.vclose(got[i, j], single[i, j], 0.0, 1e-8)]  # numpy's vectorised pow/exp may differ from the scalar path by an ulp, which sin/cos of a large argument amplifies; a vectorisation fault is an O(1) difference
             if bad:
                 add(f"column-differs:{grp(fn)}", f"{fn} ({mode}): entries {bad[:4]} of the batched result differ from the single-column calls", inp,
                     [cm.tolist(single[i]) for i in sorted({i for i, _ in bad})][:3], [cm.tolist(got[i]) for i in sorted({i for i, _ in bad})][:3])
